@@ -774,6 +774,8 @@ func c16CrossDeployment(c *core.Ctx, present func(m *samlsp.Middleware, cookieNa
 	sets := [][]depl{
 		{{"A", "sp2048", c16URL}, {"B-other-key-same-url", "spother", c16URL}, {"C-same-key-other-url", "sp2048", "https://other-app.example.com"}},
 		{{"A", "spec256", c16URL}, {"B-other-family-same-url", "sp2048", c16URL}, {"C-same-key-other-url", "spec256", "https://other-app.example.com"}},
+		// one host, one key pair, deployments that differ only in the path (or port) of their root URL
+		{{"A-path-hr", "spec256", "https://sso.example.com/hr/"}, {"B-same-key-path-wiki", "spec256", "https://sso.example.com/wiki/"}, {"C-same-key-other-port", "spec256", "https://sso.example.com:8443/hr/"}},
 	}
 	for si, set := range sets {
 		n := len(set)
